@@ -1,14 +1,25 @@
-"""C01 - see core_mod.SPEC['C01'] (generators, projections) and core_props.oracle_c01 (spec on the implementation)."""
+"""C01 - see core_mod.SPEC['C01'] (generators, projections) and core_props.oracle_c01 (spec on the implementation);
+class layer (handler tables derived from class hierarchies): c01_classes."""
+import c01_classes
 import core_mod
 
 
 def run(ctx):
     core_mod.run(ctx, 'C01')
+    c01_classes.run(ctx)
+    ctx.rule += ('; class layer: random class hierarchies (<=6 classes, 1-3 bases incl. diamonds and refused MROs, '
+                 'BaseComponent/Component, explicit / implicit / handler(False) / underscore / data members, name clashes '
+                 'across levels, override on/off) built as real classes, created and instantiated in varying orders, '
+                 'live tables and delivered sets compared with the Lean derivation')
 
 
 def search(ctx):
     core_mod.run(ctx, 'C01')
+    c01_classes.run(ctx)
 
 
 def replay(ctx, case):
-    core_mod.replay(ctx, 'C01', case)
+    if case.get('kind') == 'classes':
+        c01_classes.replay(ctx, case)
+    else:
+        core_mod.replay(ctx, 'C01', case)
